@@ -12,6 +12,7 @@ import tempfile
 from concurrent.futures import ThreadPoolExecutor
 
 from harness.common import REPO, exc_class
+from harness import c19_extra
 
 
 def codes(s):
@@ -53,7 +54,9 @@ def run(ctx):
     ctx.rule = ('every registered model name x argument spellings (none, (), positional, trailing comma, whitespace, '
                 'nested tuples, strings, code-like, unbalanced); run/run-ftp/merge through click and through real '
                 'subprocesses with option combinations; output situations stdout/new/existing/missing-dir; malformed '
-                'stream. nontrivial = argument-carrying spec or non-stdout output')
+                'stream; histories of CLI merges (depth 1-3, several groupings, outputs fed back through -o / stdout / '
+                'recovered-data log) over fresh outputs, data files of every record format app.merge documents and '
+                'malformed files, decided by app.merge, the merge-command model and the flat model merge. nontrivial = argument-carrying spec or non-stdout output or merge history of depth >= 2')
     ctx.props_obligations()
     tmp = tempfile.mkdtemp(prefix='qv_c19_')
     cwd = os.getcwd()
@@ -325,6 +328,8 @@ def _run(ctx, tmp, rng, click, pkg_resources, qc, app):
         n_in = sum(r['n_run'] for f in sel for r in json.load(open(f)))
         if isinstance(got, list) and sum(r['n_run'] for r in got) != n_in:
             ctx.violation('cli-merge-lossy', 'merged CLI outputs do not conserve n_run', {'files': sel})
+    # histories of merges: merge outputs fed back into merge, legacy-format files, malformed files (c19_extra)
+    c19_extra.merge_histories(ctx, tmp, rng, qc, app, runner, files, run_cli)
 
     # ------------------------------------------------------------------ D/E. real subprocesses
     jobs = []
